@@ -153,7 +153,7 @@ fn ob_alphabet(n_orders: usize, with_overflow: bool) -> Vec<ObCall> {
 }
 
 fn ob_build(calls: &[ObCall]) -> OrderBook {
-    let mut b: OrderBook = OrderBook::new(0, TICK, true);
+    let mut b: OrderBook = OrderBook::new(0, ob_tick(), true);
     for (k, c) in calls.iter().enumerate() {
         ob_apply(&mut b, k, c);
     }
@@ -190,7 +190,7 @@ fn ob_rec(w: &mut Writer, dir: &str, hist: &mut Vec<ObCall>, depth_left: usize, 
             })
             .collect();
         let state = ob_state(&b);
-        let mut line = json!({"id": id, "kind": "ob", "tick": TICK, "calls": calls_json, "exp": {"ret": ret, "exc": exc, "state": state}});
+        let mut line = json!({"id": id, "kind": "ob", "tick": ob_tick(), "calls": calls_json, "exp": {"ret": ret, "exc": exc, "state": state}});
         if hist.len() <= snap_depth && exc.is_none() {
             // snapshot exchange in both directions
             let rs = format!("{}/rust_snap_{}.json", dir, id);
@@ -249,8 +249,23 @@ fn step_size() -> u64 {
     STEP_SIZE.with(|s| s.get())
 }
 
+thread_local! {
+    static ENV_TICK: std::cell::Cell<u32> = std::cell::Cell::new(TICK);
+    static ENV_START: std::cell::Cell<u64> = std::cell::Cell::new(0);
+    static OB_TICK: std::cell::Cell<u32> = std::cell::Cell::new(TICK);
+}
+fn env_tick() -> u32 {
+    ENV_TICK.with(|s| s.get())
+}
+fn env_start() -> u64 {
+    ENV_START.with(|s| s.get())
+}
+fn ob_tick() -> u32 {
+    OB_TICK.with(|s| s.get())
+}
+
 fn env_new(seed: u64) -> EnvW {
-    EnvW { env: Env::new(0, TICK, step_size(), true), rng: Xoroshiro128StarStar::seed_from_u64(seed) }
+    EnvW { env: Env::new(env_start(), env_tick(), step_size(), true), rng: Xoroshiro128StarStar::seed_from_u64(seed) }
 }
 
 fn env_apply(w: &mut EnvW, c: &EnvCall) -> (Value, Option<&'static str>) {
@@ -421,12 +436,156 @@ fn env_rec(w: &mut Writer, seed: u64, hist: &mut Vec<EnvCall>, depth_left: usize
         }
         let st = env_state(&e);
         let drain = env_drain(&mut e);
-        let line = json!({"id": id, "kind": "env", "seed": seed, "tick": TICK, "step_size": step_size(), "calls": calls_json, "exp": {"ret": ret, "exc": exc, "state": st, "drain": drain}});
+        let line = json!({"id": id, "kind": "env", "seed": seed, "tick": env_tick(), "start": env_start(), "step_size": step_size(), "calls": calls_json, "exp": {"ret": ret, "exc": exc, "state": st, "drain": drain}});
         writeln!(w.f, "{}", line).unwrap();
         if exc.is_none() {
             env_rec(w, seed, hist, depth_left - 1, rich, overflow, lo, max_ids);
         }
         hist.pop();
+    }
+}
+
+// ------------------------------------------------------------------------------------------
+// scripted traces: fixed call lists with unusual constructor arguments and magnitudes; every
+// prefix is one trace. Prefixes on which the Rust core itself aborts (volumes that do not fit)
+// are not valid histories and are left out.
+// ------------------------------------------------------------------------------------------
+
+fn env_scripted(w: &mut Writer, seed: u64, tick: u32, start: u64, ss: u64, calls: &[EnvCall]) {
+    ENV_TICK.with(|s| s.set(tick));
+    ENV_START.with(|s| s.set(start));
+    STEP_SIZE.with(|s| s.set(ss));
+    for k in 1..=calls.len() {
+        let hist = &calls[..k];
+        let r = crate::util::subject(|| {
+            let mut e = env_build(seed, &hist[..k - 1]);
+            let (ret, exc) = env_apply(&mut e, &hist[k - 1]);
+            let st = env_state(&e);
+            (ret, exc, st)
+        });
+        let Ok((ret, exc, st)) = r else { break };
+        let drain = crate::util::subject(|| {
+            let mut e = env_build(seed, hist);
+            env_drain(&mut e)
+        })
+        .unwrap_or(Value::Null);
+        let mut nb = 0u32;
+        let mut calls_json = Vec::new();
+        let mut e2 = env_new(seed);
+        for c in hist.iter() {
+            calls_json.push(env_call_json(c, 100 + nb));
+            env_apply(&mut e2, c);
+            nb = e2.env.get_orders().len() as u32;
+        }
+        let id = w.n;
+        w.n += 1;
+        w.calls += hist.len() as u64;
+        let line = json!({"id": id, "kind": "env", "seed": seed, "tick": tick, "start": start, "step_size": ss, "calls": calls_json, "exp": {"ret": ret, "exc": exc, "state": st, "drain": drain}});
+        writeln!(w.f, "{}", line).unwrap();
+    }
+    ENV_TICK.with(|s| s.set(TICK));
+    ENV_START.with(|s| s.set(0));
+    STEP_SIZE.with(|s| s.set(100));
+}
+
+fn ob_scripted(w: &mut Writer, tick: u32, calls: &[ObCall]) {
+    OB_TICK.with(|s| s.set(tick));
+    for k in 1..=calls.len() {
+        let hist = &calls[..k];
+        let r = crate::util::subject(|| {
+            let mut b = ob_build(&hist[..k - 1]);
+            let (ret, exc) = ob_apply(&mut b, k - 1, &hist[k - 1]);
+            (ret, exc, ob_state(&b))
+        });
+        let Ok((ret, exc, state)) = r else { break };
+        let drain = crate::util::subject(|| {
+            let mut b = ob_build(hist);
+            ob_drain(&mut b)
+        })
+        .unwrap_or(Value::Null);
+        let calls_json: Vec<Value> = hist.iter().enumerate().map(|(i, c)| ob_call_json(c, 100 + ob_build(&hist[..i]).get_orders().len() as u32)).collect();
+        let id = w.n;
+        w.n += 1;
+        w.calls += hist.len() as u64;
+        let line = json!({"id": id, "kind": "ob", "tick": tick, "calls": calls_json, "exp": {"ret": ret, "exc": exc, "state": state, "drain": drain}});
+        writeln!(w.f, "{}", line).unwrap();
+    }
+    OB_TICK.with(|s| s.set(TICK));
+}
+
+/// unusual constructor arguments and magnitudes for the environment
+fn scripted_env_sets(w: &mut Writer) {
+    let ticks: [u32; 11] = [1, 3, 7, 10, 100, 65_535, 65_536, 450_000_000, 1 << 31, 3_000_000_000, u32::MAX];
+    for (i, &tick) in ticks.iter().enumerate() {
+        for (start, ss) in [(0u64, 100u64), (1 << 40, 1 << 33), (7, 1)] {
+            let mut calls = vec![EnvCall::Place { bid: true, vol: 2, price: Some(tick) }];
+            if let Some(p2) = tick.checked_mul(2) {
+                calls.push(EnvCall::Place { bid: false, vol: 3, price: Some(p2) });
+            }
+            calls.push(EnvCall::Place { bid: true, vol: 1, price: Some(0) });
+            calls.push(EnvCall::Step);
+            calls.push(EnvCall::Cancel { id: 0 });
+            calls.push(EnvCall::Place { bid: false, vol: 1, price: None });
+            calls.push(EnvCall::Step);
+            calls.push(EnvCall::Step);
+            env_scripted(w, 20 + i as u64, tick, start, ss, &calls);
+        }
+    }
+    // volumes around 2^31: a crossing order whose own side could not hold it if it rested
+    for tick in [1u32, 2] {
+        let calls = vec![
+            EnvCall::Place { bid: true, vol: 3_000_000_000, price: Some(90 * tick) },
+            EnvCall::Place { bid: false, vol: 2_000_000_000, price: Some(100 * tick) },
+            EnvCall::Step,
+            EnvCall::Place { bid: true, vol: 2_000_000_000, price: Some(100 * tick) },
+            EnvCall::Step,
+            EnvCall::Modify { id: 0, price: Some(95 * tick), vol: None },
+            EnvCall::Place { bid: false, vol: 4_000_000_000, price: None },
+            EnvCall::Step,
+        ];
+        env_scripted(w, 40, tick, 1 << 40, 1000, &calls);
+    }
+    // limit prices at both ends of the axis (tick 1 and 5: 2^32-1 is on the grid)
+    for tick in [1u32, 5] {
+        let calls = vec![
+            EnvCall::Place { bid: false, vol: 4, price: Some(u32::MAX) },
+            EnvCall::Place { bid: false, vol: 2, price: Some(u32::MAX - 2 * tick) },
+            EnvCall::Place { bid: true, vol: 3, price: Some(0) },
+            EnvCall::Place { bid: true, vol: 1, price: Some(tick) },
+            EnvCall::Step,
+            EnvCall::Cancel { id: 1 },
+            EnvCall::Cancel { id: 3 },
+            EnvCall::Step,
+            EnvCall::Place { bid: true, vol: 1, price: None },
+            EnvCall::Step,
+        ];
+        env_scripted(w, 41, tick, 0, 100, &calls);
+    }
+}
+
+fn scripted_ob_sets(w: &mut Writer) {
+    for tick in [1u32, 2, 10] {
+        let calls = vec![
+            ObCall::Place { bid: true, vol: 3_000_000_000, price: Some(90 * tick) },
+            ObCall::Place { bid: false, vol: 2_000_000_000, price: Some(100 * tick) },
+            ObCall::Place { bid: true, vol: 2_000_000_000, price: Some(100 * tick) },
+            ObCall::Modify { id: 0, price: None, vol: Some(1_000) },
+            ObCall::Place { bid: false, vol: 1_500_000_000, price: Some(95 * tick) },
+            ObCall::Place { bid: false, vol: 4_000_000_000, price: Some(95 * tick) },
+            ObCall::SetTime { dt: 1 << 40 },
+            ObCall::Place { bid: true, vol: 70_000, price: None },
+        ];
+        ob_scripted(w, tick, &calls);
+    }
+    for tick in [450_000_000u32, 1 << 31, u32::MAX, 65_536] {
+        let mut calls = vec![ObCall::Place { bid: true, vol: 2, price: Some(tick) }];
+        if let Some(p2) = tick.checked_mul(2) {
+            calls.push(ObCall::Place { bid: false, vol: 3, price: Some(p2) });
+        }
+        calls.push(ObCall::Place { bid: true, vol: 1, price: Some(0) });
+        calls.push(ObCall::Place { bid: false, vol: 1, price: None });
+        calls.push(ObCall::Cancel { id: 0 });
+        ob_scripted(w, tick, &calls);
     }
 }
 
@@ -551,6 +710,8 @@ pub fn c18(tier: &str) -> i32 {
         env_rec(&mut w, seed, &mut Vec::new(), if t { 5 } else { 4 }, false, false, 2, usize::MAX);
     }
     STEP_SIZE.with(|s| s.set(100));
+    scripted_env_sets(&mut w);
+    scripted_ob_sets(&mut w);
     w.f.flush().unwrap();
     let n_total = w.n;
     out.set("states", json!(n_total));
@@ -631,6 +792,7 @@ pub fn c19(tier: &str) -> i32 {
     let n_deep = deep.len();
     env_rec(&mut w, 3, &mut deep, if t { 4 } else { 3 }, false, false, 31, 3);
     let _ = n_deep;
+    scripted_env_sets(&mut w);
     w.f.flush().unwrap();
     out.set("states", json!(w.n));
     drop(w);
